@@ -13,7 +13,12 @@ ASSUME = [
     "abstracted to the features the guards read (tag, xmlns, type, class chain, child tags, proto@mediatype, payload "
     "kind, registry membership)",
     "tie (b): harness/translators/c06tables.py regenerates the layer list per flag selection, the default stack shape "
-    "and every layer's handleMap keys from the Python source on every run; the theorems are re-checked against them",
+    "and every layer's handleMap keys from the tree under test on every run; the theorems are re-checked against them. "
+    "Two extractions: the ast one (when the source has the recognised shape) and the values the real helpers return "
+    "for all 16 selections / the handleMap of every instantiated protocol layer (harness/translators/stack_eval.py, "
+    "fresh interpreter, every helper value is the first call of a process); they must agree; the evaluated table "
+    "alone is used when the source shape is not recognised; later helper calls in one process are compared with the "
+    "first-call values (a difference is reported with the call sequence)",
     "tie (a): the guards are tied by correspondence, exhaustive over kinds: every kind x 16 module selections x "
     "with/without encryption layers x several generated field vectors through the real stack; abstract action "
     "multisets compared with the extracted model; the kind table the theorems quantify over is compared with the "
@@ -38,12 +43,28 @@ def run(ctx):
     stats = C.new_stats()
     quick = ctx.tier == "quick"
     nvec = 3 if quick else 12
-    C.sweep(ctx, model, table, lambda k: True, nvec, profile, stats, judge_answers=False)
-    C.reply_sweep(ctx, model, 1 if quick else 6, profile, stats)
-    C.retry_sweep(ctx, model, 2 if quick else 20, profile, stats)
-    C.history_sweep(ctx, model, lambda k: True, 25 if quick else 400, stats, judge_answers=False)
+    # a helper whose value depends on earlier calls (reported by regenerate with the call sequence): every stack this
+    # process would build after the first one has a polluted layer list; the check has failed with a concrete input
+    # and sweeping thousands of such stacks adds only derived symptoms
+    polluted = bool(gen and gen["history_findings"])
+    if polluted:
+        ctx.notes.append("sweeps not run: the stack-builder helpers return different values after earlier calls in "
+                         "the same process (see the oracle:helper-call-history records)")
+        ctx.coverage["sweeps_skipped"] = "helper values depend on the call history"
+    else:
+        try:
+            C.sweep(ctx, model, table, lambda k: True, nvec, profile, stats, judge_answers=False)
+            C.reply_sweep(ctx, model, 1 if quick else 6, profile, stats)
+            C.retry_sweep(ctx, model, 2 if quick else 20, profile, stats)
+            C.history_sweep(ctx, model, lambda k: True, 25 if quick else 400, stats, judge_answers=False)
+        except Exception as e:
+            # with helpers / layers the translator could not use (a helper raises, returns a non-layer, ...) the rig
+            # may not be able to build a stack either; the broken tie is reported below
+            if gen is not None:
+                raise
+            ctx.notes.append("sweeps aborted on a tree the translator could not use: %s: %s" % (type(e).__name__, e))
     K = C.kinds()
-    if table is not None:
+    if table is not None and not polluted:
         names = set(r[0].decode() for r in table[0])
         missing = sorted(names - stats["table_kinds_seen"])
         if missing:
@@ -85,4 +106,7 @@ def run(ctx):
 
 
 def replay(ctx, data):
+    rc = C.replay_translator_case(ctx, data)
+    if rc is not None:
+        return rc
     return C.replay_case(ctx, data, R.make_profile(ctx.scratch))
